@@ -487,7 +487,13 @@ def compare_generations(se, a, b, tol, V, tag, what):
             if x[k] != y[k]:
                 raise V(tag, [k, x["cls"]], "%s: shape data-n=%s (%s -> %s) %s %r became %r" % (what, x["n"], x["cls"], y["cls"], k, x[k], y[k]))
         if not ob.close_val(x["sw"], y["sw"], 1e-6, tol):
-            raise V(tag, ["stroke-width", x["cls"]], "%s: shape data-n=%s (%s) stroke width %r became %r" % (what, x["n"], x["cls"], x["sw"], y["sw"]))
+            nss = []
+            try:
+                if "non-scaling-stroke" in str(x["_elem"].values.get("vector-effect", "")):
+                    nss = ["non-scaling-stroke"]
+            except Exception:
+                pass
+            raise V(tag, ["stroke-width", x["cls"]] + nss, "%s: shape data-n=%s (%s%s) stroke width %r became %r" % (what, x["n"], x["cls"], ", vector-effect non-scaling-stroke" if nss else "", x["sw"], y["sw"]))
         ga, gb = x["geom"], y["geom"]
         if len(ga) != len(gb) or [k for k, _ in ga] != [k for k, _ in gb]:
             raise V(tag, ["geometry-structure", x["cls"]], "%s: shape data-n=%s (%s -> %s) segments %s became %s" % (what, x["n"], x["cls"], y["cls"], [k for k, _ in ga], [k for k, _ in gb]))
